@@ -54,7 +54,37 @@ def py_swap(a, b):
     return (b, a)
 
 
-PYFUNCS = {"len": len, "sum": sum, "py_double": py_double, "py_swap": py_swap}
+def py_fan(n):
+    """a plain helper whose VALUE is a container of task calls"""
+    return [inc(i) for i in range(n)]
+
+
+def py_plan(x, kind):
+    return {"a": inc(x), "b": (x, raiser(kind, "pf") if kind else twice(x))}
+
+
+class Plan:
+    """a plain user class (a leaf for the scheduler): `plan.steps()` is a list of task calls, `plan[i]` a tuple holding one"""
+
+    def __init__(self, n, kind=None):
+        self.n = n
+        self.kind = kind
+
+    def steps(self):
+        calls = [inc(i) for i in range(self.n)]
+        return calls + [raiser(self.kind, "plan")] if self.kind else calls
+
+    def __getitem__(self, i):
+        return (i, inc(i + self.n))
+
+    def __eq__(self, other):
+        return isinstance(other, Plan) and (self.n, self.kind) == (other.n, other.kind)
+
+    def __hash__(self):
+        return hash((self.n, self.kind))
+
+
+PYFUNCS = {"len": len, "sum": sum, "py_double": py_double, "py_swap": py_swap, "py_fan": py_fan, "py_plan": py_plan}
 
 # every execution of a raising leaf (thread-mode executors share it with the harness): ("raiser", kind, tag)
 CALL_LOG = []
@@ -123,6 +153,11 @@ def busy_local(tag):
 def busy(tag):
     CALL_LOG.append(("busy", "B", tag))
     raise BusyError("B-%s" % tag, threading.Lock())
+
+
+@task()
+def mkplan(n, kind=None):
+    return Plan(n, kind)
 
 
 @task()
